@@ -139,6 +139,15 @@ def run(ctx):
             judge_workspace(ctx, ws, model, order, "vh",
                             goto=lambda f, l, c: _vh_goto(vh, db, f, l, c),
                             refs=lambda f, l, n_: _vh_refs(vh, db, f, l, n_))
+            if i % 3 == 0:
+                # the editor closed every conftest.py tab (texts leave the text cache; the chain on disk is unchanged)
+                for rel in ws.workspace_py():
+                    if rel.endswith("conftest.py"):
+                        vh.call(op="close", db=db, path=ws.abs(rel))
+                ctx.nontrivial(("phase", "conftests_closed"))
+                judge_workspace(ctx, ws, model, order, "vh",
+                                goto=lambda f, l, c: _vh_goto(vh, db, f, l, c),
+                                refs=lambda f, l, n_: _vh_refs(vh, db, f, l, n_))
             vh.call(op="drop_db", db=db)
             if i < n_lsp:
                 lsp_level(ctx, ws, model, order)
